@@ -33,6 +33,25 @@ func VerifNewEonPubKeyHandler(
 	}}
 }
 
+// VerifEonPubKeyHandlerFromOptions builds the handler the way a flavour does: a core made by New with
+// the flavour's options (WithMessaging, NoBroadcastEonPublicKey, WithEonPublicKeyHandler, ...), then the
+// handler KeyperCore.Start derives from it.
+func VerifEonPubKeyHandlerFromOptions(
+	config *kprconfig.Config,
+	dbpool *pgxpool.Pool,
+	options ...Option,
+) (*VerifEonPubKeyHandler, error) {
+	core, err := New(config, nil, options...)
+	if err != nil {
+		return nil, err
+	}
+	if err := validateOptions(core.opts); err != nil {
+		return nil, err
+	}
+	core.dbpool = dbpool
+	return &VerifEonPubKeyHandler{newEonPubKeyHandler(core)}, nil
+}
+
 func (v *VerifEonPubKeyHandler) QueryAndHandle(ctx context.Context) error {
 	return v.h.queryAndHandleNewEonPubKeys(ctx)
 }
